@@ -80,6 +80,8 @@ def c01_sig(v):
             sigs.append("impl|fact|refused:exception end_pc = code_length")
         if "localvar-target-start" in ends:
             sigs.append("impl|fact|refused:localvar_target start_pc = code_length")
+        if (rec.get("facts") or {}).get("version") == [67, 65535]:
+            sigs.append("impl|fact|refused:class file version 67.65535")
         if not sigs:
             sigs.append("impl|fact|refused:other")
     elif e.get("ok") and g.get("ok"):
@@ -114,6 +116,8 @@ def c01_class(r):
     cl = ["fam/" + str(r.get("fam"))]
     ver = facts.get("version") or [0, 0]
     cl.append("version/%d" % ver[0])
+    if ver[1] == 65535 and ver[0] >= 56:
+        cl.append("version/preview")
     forms = {(f[0], f[1]): f[2] for f in enc.get("forms") or []}
     offs = exp.get("offs") or []
     for mi, c in enumerate(_codes(facts)):
@@ -282,7 +286,7 @@ P = {
     "dir": "duke",
     "mc": [{"module": "MC_ClassRead", "cfg": "MC_ClassRead.cfg", "timeout": {"quick": 600, "thorough": 3000}}],
     "trace": {"module": "Trace_ClassRead", "cfg": "Trace_ClassRead.cfg", "timeout": 3000},
-    "i2s_n": {"quick": 700, "thorough": 5000},
+    "i2s_n": {"quick": 700, "thorough": 8000},
     "classify_vec": c01_class,
     "classify_i2s": c01_class_i2s,
     "required_classes": ["fam/" + f for f in ("shape", "branch", "pair", "exc", "dbg", "frm", "all", "ver", "members")]
@@ -307,7 +311,7 @@ P = {
                            "frame/uninitialized", "frame/at-first-instruction", "target/new", "target/local_variable", "target/exception_parameter"]
                         + ["enc/pool:first_use", "enc/pool:reverse", "enc/pool:shuffle", "enc/pool-pad>255", "enc/no-dedup", "enc/frames:compact",
                            "enc/frames:full", "enc/frames:extended", "enc/attr-order:default", "enc/attr-order:shuffled", "enc/split-line-tables"]
-                        + ["version/%d" % m for m in range(45, 68)],
+                        + ["version/%d" % m for m in range(45, 68)] + ["version/preview"],
     "signature": c01_sig,
     "corrupt": c01_corrupt,
     "level_text": "What a class file states is specified independently of its layout (ClassFacts: code as instructions whose branch operands and all table entries are instruction indices or `end`; Encoding separately: instruction forms, switch padding, attribute order, frame compression, pool layout), and the reader of a Code attribute as the machine the code is (ClassRead: explicit offset -> label table; first pass over branch targets, exception rows, table rows in file order incl. the running offset_delta sum and the exclusive end = code_length, second pass attaching labels and frames, last label, table events). TLC lays out every case of a bounded universe itself (one representative per operand shape x every form; every branching shape at each of the 4 switch paddings; shape-form pairs; up to two exception ranges incl. end at code end; line / local variable / type tables touching start, middle and end; every compressed frame kind incl. uninitialized offsets; type annotation targets; attribute orders; versions 45.3..67), runs the machine over the raw layout one step per action and checks in every state that the label table is an injection onto instruction boundaries, and at the end that every operand and table row denotes exactly the instruction the facts say, every frame travels with the instruction at its offset, every fact is in exactly one event, and the result equals that of the canonical encoding. Every case is assembled by an independent assembler (cfkit) under the chosen encoding, read by duke::read_class, projected and compared with the facts (and TLC's computed byte layout with the assembled one). Corpus and sample classes (javac 8/11/17 output, JDK classes, 50 hand-written feature classes incl. every opcode, each under up to 10 encodings) are read by duke and by the independent parser; TLC re-runs the machine over the raw offsets / table rows of every method and requires duke's positions to be its result, and judges every reported difference of the rest of the class (flag bits JVMS assigns no meaning, empty annotation tables, the BootstrapMethods table and narrowed Z/B/C/S element constants are not facts).",
